@@ -34,8 +34,10 @@ def scenarios(rng, tier):
         s.frame(0, query(M, OWN0, seq=7)); s.frame(0, query(M, OWN0, seq=8)); s.frame(0, qlt(M, OWN0, 14, 0, seq=9)); s.frame(0, qlt(M, OWN0, 14, mtu - 34, seq=10))
     return [(s.text(), {})]
 def project(blk, name, meta):
+    # the property observes WHICH frames leave in reaction to what (their well-formedness is judged on the implementation's
+    # own frames by the extracted validator and the Python one); byte layouts the property leaves open are not compared
     if blk.fault: return ('fault',)
-    if blk.op.startswith(('frame', 'relay')): return tuple(blk.acts)
+    if blk.op.startswith(('frame', 'relay')): return send_opcodes(blk)
     return ()
 SOLICIT = {(0, 0), (1, 0), (0, 2), (0, 6), (0, 0x0B), (1, 0x0B)}
 def oracle(name, ib, mb, meta):
@@ -64,6 +66,7 @@ def oracle(name, ib, mb, meta):
             if len(sn) > lim: fails.append((i, '%d frames sent for one request (limit %d)' % (len(sn), lim)))
     base, _, j = name.partition('~')
     tr = [tuple(b.acts) for b in ib if b.op.startswith('frame')]
+    if meta.get('shrinking'): return fails    # the twin comparison is between whole runs
     if base in _twins:
         if _twins[base][1] != tr:
             k = next((x for x in range(min(len(tr), len(_twins[base][1]))) if tr[x] != _twins[base][1][x]), 0)
